@@ -113,21 +113,29 @@ impl<T> AtomicWeak<T> {
         failure: Ordering,
         guard: &'g Guard,
     ) -> Result<Weak<T>, CompareExchangeError<Weak<T>, WeakSnapshot<'g, T>>> {
-        #[cfg(feature = "circ_verif")]
-        crate::verif::yp(crate::verif::site::AW_CAS);
-        match self
-            .link
-            .compare_exchange(expected.ptr, desired.ptr, success, failure)
-        {
-            Ok(_) => {
-                // Skip decrementing a weak count of the inserted pointer.
-                forget(desired);
-                let weak = Weak::from_raw(expected.ptr);
-                Ok(weak)
-            }
-            Err(current) => {
-                let current = WeakSnapshot::from_raw(current, guard);
-                Err(CompareExchangeError { desired, current })
+        let mut expected_raw = expected.ptr;
+        loop {
+            #[cfg(feature = "circ_verif")]
+            crate::verif::yp(crate::verif::site::AW_CAS);
+            match self
+                .link
+                .compare_exchange(expected_raw, desired.ptr, success, failure)
+            {
+                Ok(_) => {
+                    // Skip decrementing a weak count of the inserted pointer.
+                    forget(desired);
+                    let weak = Weak::from_raw(expected_raw);
+                    return Ok(weak);
+                }
+                Err(current) => {
+                    // The internal epoch bits are not part of the pointer value: retry with them.
+                    if current.ptr_eq(expected_raw) {
+                        expected_raw = current;
+                    } else {
+                        let current = WeakSnapshot::from_raw(current, guard);
+                        return Err(CompareExchangeError { desired, current });
+                    }
+                }
             }
         }
     }
@@ -160,21 +168,29 @@ impl<T> AtomicWeak<T> {
         failure: Ordering,
         guard: &'g Guard,
     ) -> Result<Weak<T>, CompareExchangeError<Weak<T>, WeakSnapshot<'g, T>>> {
-        #[cfg(feature = "circ_verif")]
-        crate::verif::yp(crate::verif::site::AW_CAS);
-        match self
-            .link
-            .compare_exchange_weak(expected.ptr, desired.ptr, success, failure)
-        {
-            Ok(_) => {
-                // Skip decrementing a weak count of the inserted pointer.
-                forget(desired);
-                let weak = Weak::from_raw(expected.ptr);
-                Ok(weak)
-            }
-            Err(current) => {
-                let current = WeakSnapshot::from_raw(current, guard);
-                Err(CompareExchangeError { desired, current })
+        let mut expected_raw = expected.ptr;
+        loop {
+            #[cfg(feature = "circ_verif")]
+            crate::verif::yp(crate::verif::site::AW_CAS);
+            match self
+                .link
+                .compare_exchange_weak(expected_raw, desired.ptr, success, failure)
+            {
+                Ok(_) => {
+                    // Skip decrementing a weak count of the inserted pointer.
+                    forget(desired);
+                    let weak = Weak::from_raw(expected_raw);
+                    return Ok(weak);
+                }
+                Err(current) => {
+                    // The internal epoch bits are not part of the pointer value: retry with them.
+                    if current.ptr_eq(expected_raw) {
+                        expected_raw = current;
+                    } else {
+                        let current = WeakSnapshot::from_raw(current, guard);
+                        return Err(CompareExchangeError { desired, current });
+                    }
+                }
             }
         }
     }
@@ -213,18 +229,28 @@ impl<T> AtomicWeak<T> {
         guard: &'g Guard,
     ) -> Result<WeakSnapshot<'g, T>, CompareExchangeError<WeakSnapshot<'g, T>, WeakSnapshot<'g, T>>>
     {
+        let mut expected_raw = expected.ptr;
         let desired_raw = expected.ptr.with_tag(desired_tag);
-        #[cfg(feature = "circ_verif")]
-        crate::verif::yp(crate::verif::site::AW_CAS_TAG);
-        match self
-            .link
-            .compare_exchange(expected.ptr, desired_raw, success, failure)
-        {
-            Ok(current) => Ok(WeakSnapshot::from_raw(current, guard)),
-            Err(current) => Err(CompareExchangeError {
-                desired: WeakSnapshot::from_raw(desired_raw, guard),
-                current: WeakSnapshot::from_raw(current, guard),
-            }),
+        loop {
+            #[cfg(feature = "circ_verif")]
+            crate::verif::yp(crate::verif::site::AW_CAS_TAG);
+            match self
+                .link
+                .compare_exchange(expected_raw, desired_raw, success, failure)
+            {
+                Ok(current) => return Ok(WeakSnapshot::from_raw(current, guard)),
+                Err(current) => {
+                    // The internal epoch bits are not part of the pointer value: retry with them.
+                    if current.ptr_eq(expected_raw) {
+                        expected_raw = current;
+                    } else {
+                        return Err(CompareExchangeError {
+                            desired: WeakSnapshot::from_raw(desired_raw, guard),
+                            current: WeakSnapshot::from_raw(current, guard),
+                        });
+                    }
+                }
+            }
         }
     }
 
